@@ -207,9 +207,15 @@ def shard_crash(prop: str, tier: str, seed: int, name: str, signalled: bool) -> 
             info = []
             for sg in sigs:
                 info.append({**sg, "gate_status_when_handled": "n/a", "handled_step": None})
-            pending_inj = [sg for sg in sigs if sg["at"] >= cs["step"]]
-            if pending_inj:
-                continue  # the signal had not been sent yet at this crash point: covered by the position sweep of the signalled run
+            if sigs:
+                import sqlite3
+
+                con = sqlite3.connect(":memory:")
+                con.deserialize(cs["blob"])
+                sent = con.execute("SELECT COUNT(*) FROM v_qlog WHERE message_type = 'SignalStage' AND op = 'ins'").fetchone()[0]
+                con.close()
+                if sent < len(sigs):
+                    continue  # a signal had not been sent yet at this crash point (nobody re-sends it): covered by the position sweep
             judge(c, spec, rec, {"style": "fifo", "crash_commit": cs["index"], "signal_at": at}, info, ["crash", "signalled" if signalled else "unsignalled"],
                   recovered=True, allowed_extra=rec.get("allowed_extra"))
     return c.export()
